@@ -160,6 +160,37 @@ def s_feevalue(F, res):
         res.add([ok("S-FEEVALUE", key, where(f), "Param::Set(.. fees as i128 ..): casts and constructors only")])
 
 
+def reported_fee_clause(F, res, rule="S-FEEFLOW", why=None):
+    """Compiler::compile: the fee it reports is the fee function of the very payload it returns - nothing else enters it (no
+    clamp against the fee the body pays, no memory of earlier rounds).  Shared with C20: only then is the evaluation a function
+    of the template and the configuration alone."""
+    # Compiler::compile: fee = eval_size_fees(&payload ..) of the returned payload
+    c = _compile_body(F)
+    du2 = mir.DefUse(c)
+    key2 = c["path"] + "|reported fee is computed from the returned payload"
+    aggs = [(bi, s) for bi, si, s in mir.stmts(c) if s["rv"]["k"] == "agg" and s["rv"].get("adt") == "tx3_tir::compile::CompiledTx"]
+    if not aggs:
+        raise BrokenCheck("Compiler::compile no longer builds a CompiledTx")
+    good2 = True
+    for bi, s in aggs:
+        rv = s["rv"]
+        fee_op = rv["ops"][rv["fields"].index("fee")]
+        pay_op = rv["ops"][rv["fields"].index("payload")]
+        fo = mir.provenance(c, du2, fee_op)
+        esf = [x for x in fo if x.kind == "call" and x.callee == fee_function(F)]
+        if not esf or len(esf) != len(fo):
+            good2 = False
+            continue
+        po = {repr(x) for x in mir.provenance(c, du2, pay_op, transparent_extra=("std::result::Result::<T, E>::unwrap",))}
+        ao = {repr(x) for x in mir.provenance(c, du2, esf[0].term["args"][0], transparent_extra=("std::result::Result::<T, E>::unwrap",))}
+        if not (po & ao):
+            good2 = False
+    if good2:
+        res.add([ok(rule, key2, where(c), "CompiledTx { payload: p, fee: eval_size_fees(&p, ..) }")])
+    else:
+        res.add([finding(rule, key2, where(c), why or "the reported fee is not eval_size_fees of the payload that is returned")])
+
+
 def s_feeflow(F, res):
     pfn = e8_state.resolver_roles(F)[1]
     g = e8_state.pass_body(F)
@@ -235,31 +266,7 @@ def s_feeflow(F, res):
         res.add([finding("S-FEEFLOW", key1, where(g), "an evaluation returned by eval_pass is not the direct result of Compiler::compile")])
     else:
         res.add([ok("S-FEEFLOW", key1, where(g), "no CompiledTx aggregate or field assignment in tx3_resolver; %d Some(eval) returns are compile()'s result" % nsome)])
-    # Compiler::compile: fee = eval_size_fees(&payload ..) of the returned payload
-    c = _compile_body(F)
-    du2 = mir.DefUse(c)
-    key2 = c["path"] + "|reported fee is computed from the returned payload"
-    aggs = [(bi, s) for bi, si, s in mir.stmts(c) if s["rv"]["k"] == "agg" and s["rv"].get("adt") == "tx3_tir::compile::CompiledTx"]
-    if not aggs:
-        raise BrokenCheck("Compiler::compile no longer builds a CompiledTx")
-    good2 = True
-    for bi, s in aggs:
-        rv = s["rv"]
-        fee_op = rv["ops"][rv["fields"].index("fee")]
-        pay_op = rv["ops"][rv["fields"].index("payload")]
-        fo = mir.provenance(c, du2, fee_op)
-        esf = [x for x in fo if x.kind == "call" and x.callee == fee_function(F)]
-        if not esf:
-            good2 = False
-            continue
-        po = {repr(x) for x in mir.provenance(c, du2, pay_op, transparent_extra=("std::result::Result::<T, E>::unwrap",))}
-        ao = {repr(x) for x in mir.provenance(c, du2, esf[0].term["args"][0], transparent_extra=("std::result::Result::<T, E>::unwrap",))}
-        if not (po & ao):
-            good2 = False
-    if good2:
-        res.add([ok("S-FEEFLOW", key2, where(c), "CompiledTx { payload: p, fee: eval_size_fees(&p, ..) }")])
-    else:
-        res.add([finding("S-FEEFLOW", key2, where(c), "the reported fee is not eval_size_fees of the payload that is returned")])
+    reported_fee_clause(F, res)
     # body fee = template fees
     b = F.fns[roles.builder_of(F, "tx3_cardano", "::TransactionBody")]
     du3 = mir.DefUse(b)
@@ -281,6 +288,9 @@ def s_feeflow(F, res):
 
 
 _FEEFN = {}
+CLAMPING = ("std::cmp::Ord::max", "std::cmp::Ord::min", "std::cmp::Ord::clamp", "std::cmp::max", "std::cmp::min",
+            "core::num::<impl u64>::saturating_add", "core::num::<impl u64>::saturating_sub", "core::num::<impl u64>::wrapping_add",
+            "core::num::<impl u64>::checked_add", "std::option::Option::<T>::unwrap_or")
 
 
 def fee_function(F):
@@ -294,7 +304,8 @@ def fee_function(F):
     for bi, si, st in mir.stmts(c):
         rv = st["rv"]
         if rv["k"] == "agg" and rv.get("adt") == "tx3_tir::compile::CompiledTx" and "fee" in rv.get("fields", []):
-            for o in mir.provenance(c, du, rv["ops"][rv["fields"].index("fee")]):
+            # (found through clamps as well: whether anything but the function's result enters the fee is S-FEEFLOW's rule)
+            for o in mir.provenance(c, du, rv["ops"][rv["fields"].index("fee")], transparent_extra=CLAMPING):
                 if o.kind == "call" and o.callee in F.fns and F.fns[o.callee]["crate"] == "tx3_cardano":
                     cands.append(o.callee)
     if len(set(cands)) != 1:
